@@ -51,12 +51,12 @@ class Bridge:
         return out
 
     # ---- construction
-    def to_real(self, v, ins, array_form=0):
+    def to_real(self, v, ins, array_form=0, handles=None):
         it = self.interp
         if v is None:
             return None
         if ins.kind == "switch":
-            return self.build(v, array_form)
+            return self.build(v, array_form, handles)
         t = it.resolve(ins.type)
 
         def conv(x):
@@ -65,7 +65,7 @@ class Bridge:
             if t.kind == "enum":
                 return self.top_class(t.name)(x)
             if t.kind == "struct":
-                return self.build(x, array_form)
+                return self.build(x, array_form, handles)
             if t.kind == "blob":
                 return bytes(x)
             return x
@@ -75,15 +75,34 @@ class Bridge:
                 return tuple(items)
             if array_form == 2:
                 return (x for x in items)
+            if handles is not None:
+                handles.append(items)
             return items
         return conv(v)
 
-    def build(self, obj, array_form=0):
+    def build(self, obj, array_form=0, handles=None):
         C = self.real_class(obj.cls)
         kwargs = {}
         for name, ins in self.params(obj.cls):
-            kwargs[name] = self.to_real(obj.fields.get(name), ins, array_form)
+            kwargs[name] = self.to_real(obj.fields.get(name), ins, array_form, handles)
         return C(**kwargs)
+
+    def walk(self, obj, real, fn, where=""):
+        """fn(real_instance, cls_path, param_names, where) for the instance and every nested generated instance."""
+        names = [n for n, _i in self.params(obj.cls)]
+        fn(real, obj.cls, names, where)
+        for name, ins in self.params(obj.cls):
+            mv = obj.fields.get(name)
+            try:
+                rv = getattr(real, name)
+            except Exception:
+                continue
+            if isinstance(mv, Obj) and rv is not None:
+                self.walk(mv, rv, fn, where + "." + name)
+            elif isinstance(mv, (list, tuple)) and rv is not None:
+                for i, (a, b) in enumerate(zip(mv, rv)):
+                    if isinstance(a, Obj) and i < 2:
+                        self.walk(a, b, fn, "%s.%s[%d]" % (where, name, i))
 
     # ---- comparison
     def compare(self, obj, real, where="", byte_size=False, out=None):
